@@ -121,3 +121,23 @@ def bytesCompare (a b : Bytes) : Int := if lexLt a b then -1 else if lexLt b a t
 def countFuel (i n : Int) : Nat := (n - i).toNat + 1
 
 end Sema.Go
+
+namespace Sema.Go
+/-- the loop of `slices.BinarySearchFunc`:
+`for i < j { h := int(uint(i+j) >> 1); if cmp(x[h], target) < 0 { i = h + 1 } else { j = h } }`
+(`j - i` at least halves per iteration, so `len(x)` iterations are enough) -/
+def bsLoop {α τ : Type} [Inhabited α] (x : List α) (target : τ) (cmp : α → τ → Int) : Nat → Int → Int → Int
+  | 0, i, _ => i
+  | fuel + 1, i, j =>
+    if i < j then
+      let h := (i + j) / 2
+      if cmp (getI x h) target < 0 then bsLoop x target cmp fuel (h + 1) j else bsLoop x target cmp fuel i h
+    else i
+
+/-- `slices.BinarySearchFunc(x, target, cmp)`: `n := len(x); i, j := 0, n; <loop>;
+return i, i < n && cmp(x[i], target) == 0` -/
+def binarySearchFunc {α τ : Type} [Inhabited α] (x : List α) (target : τ) (cmp : α → τ → Int) : Int × Bool :=
+  let n := len x
+  let i := bsLoop x target cmp x.length 0 n
+  (i, decide (i < n) && cmp (getI x i) target == 0)
+end Sema.Go
